@@ -8,6 +8,8 @@
 (* action per critical section of the implementation                       *)
 (*   CreateScope, Provide, Decorate, BeginInvoke   (API level)             *)
 (*   Descend, Exec, Unwind                         (resolver micro-steps)  *)
+(*   Enter, NestBegin, NestReturn   (a user function that, while it runs,  *)
+(*                                   calls Invoke on the container again)  *)
 (* plus a declarative layer (Source, Feeders, Closure, Buildable,          *)
 (* CyclicInView ...) that knows nothing about stacks and caches, against   *)
 (* which the properties C01..C20 are stated.                               *)
@@ -67,7 +69,8 @@ Cat       == Cats[ci]
 Fns       == DOMAIN Cat.fns
 Fn(f)     == Cat.fns[f]
 Kind(f)   == Fn(f).kind            \* "ctor" | "dec" | "inv"
-Ps(f)     == Fn(f).ps              \* flat parameters [k, m, o], declaration order; m in req|opt|grp|soft
+Ps(f)     == Fn(f).ps              \* flat parameters [k, m, op], declaration order; m in req|opt|grp|soft
+Nest(f)   == Fn(f).nest            \* Invoke calls [i, s] the body of f makes on the container, in order
 Rs(f)     == Fn(f).rs              \* flat results [ks, m, n]; m in one|grp|flat
 Root      == "r"
 Scopes    == DOMAIN Cat.parent
@@ -84,6 +87,8 @@ Home(f) == IF Fn(f).exp THEN Root ELSE Fn(f).scope     \* where its registration
 Ctors  == {f \in Fns : Kind(f) = "ctor"}
 Decors == {f \in Fns : Kind(f) = "dec"}
 Invs   == {f \in Fns : Kind(f) = "inv"}
+\* functions that are only ever invoked from inside another user function
+NestedInvs == UNION {{Nest(f)[j].i : j \in DOMAIN Nest(f)} : f \in Fns}
 
 ResKeys(f, i)   == ToSet(Rs(f)[i].ks)
 KeysOf(f)       == UNION {ResKeys(f, i) : i \in DOMAIN Rs(f)}
@@ -111,6 +116,7 @@ NoFail == [c |-> "", f |-> "", n |-> 0, md |-> FALSE, from |-> "", mk |-> {}, pa
 Failure(c, f, n, md, from, mk) == [c |-> c, f |-> f, n |-> n, md |-> md, from |-> from, mk |-> mk, path |-> <<>>]
 
 NoCall == [op |-> "", f |-> "", s |-> "", active |-> FALSE, pre |-> {}]
+NoRes  == [v |-> "", f |-> "", n |-> 0]
 Ret(v, f, n, mk) == [v |-> v, f |-> f, n |-> n, mk |-> mk, vp |-> <<>>]
 RetP(v, f, n, mk, vp) == [v |-> v, f |-> f, n |-> n, mk |-> mk, vp |-> vp]
 
@@ -272,10 +278,16 @@ Decorate(d) ==
   /\ UNCHANGED <<ci, opt, created, reg, vals, dvals, grps, dgrps, called, dcalled, verified,
                  execs, okn, stack, fail, ninv, nfault>>
 
-NewFrame(f, s) == [f |-> f, view |-> s, pi |-> 1, args |-> [j \in 1..Len(Ps(f)) |-> <<>>]]
+\* a frame: function f being prepared as seen from scope view; pi = next parameter (build order);
+\* ph = "build" (arguments), "run" (the user function is running and may call Invoke: ni = its
+\* next nested call), "done" (a nested Invoke finished with result res); pre = constructors
+\* already called when this Invoke began (Invoke frames only)
+NewFrame(f, s) == [f |-> f, view |-> s, pi |-> 1, args |-> [j \in 1..Len(Ps(f)) |-> <<>>],
+                   ph |-> "build", ni |-> 1, pre |-> {}, res |-> NoRes]
+InvFrame(i, s) == [NewFrame(i, s) EXCEPT !.pre = called]
 
 BeginInvoke(i, s) ==
-  /\ Idle /\ i \in Invs /\ s \in created /\ ninv < MaxInv
+  /\ Idle /\ i \in Invs \ NestedInvs /\ s \in created /\ ninv < MaxInv
   /\ ninv' = ninv + 1
   /\ LET mk == Shallow(i, s) IN
      IF Fn(i).inv # "" THEN
@@ -289,7 +301,7 @@ BeginInvoke(i, s) ==
         /\ UNCHANGED <<stack, verified>>
      ELSE
         /\ verified' = verified \cup {s}
-        /\ stack' = <<NewFrame(i, s)>>
+        /\ stack' = <<InvFrame(i, s)>>
         /\ cur' = [op |-> "invoke", f |-> i, s |-> s, active |-> TRUE, pre |-> called]
         /\ log' = <<>>
         /\ UNCHANGED ret
@@ -365,8 +377,16 @@ ResolveGroup(p, view) ==
 Resolve(p, view) == IF p.m \in {"grp", "soft"} THEN ResolveGroup(p, view)
                     ELSE ResolveSingle(p, view)
 
-Building == cur.active /\ fail = NoFail /\ stack # <<>> /\ Top.pi <= Len(Ps(Top.f))
-Ready    == cur.active /\ fail = NoFail /\ stack # <<>> /\ Top.pi > Len(Ps(Top.f))
+Building == cur.active /\ fail = NoFail /\ stack # <<>> /\ Top.ph = "build" /\ Top.pi <= Len(Ps(Top.f))
+Ready    == cur.active /\ fail = NoFail /\ stack # <<>> /\ Top.ph = "build" /\ Top.pi > Len(Ps(Top.f))
+Running  == cur.active /\ fail = NoFail /\ stack # <<>> /\ Top.ph = "run"
+\* the body of f calls Invoke (never in a dry container: bodies do not run there)
+HasNest(f) == ~opt.dry /\ Nest(f) # <<>>
+
+\* the innermost Invoke in progress: the frame of its invoked function
+InvIdx == CHOOSE j \in DOMAIN stack : Kind(stack[j].f) = "inv" /\
+             \A x \in DOMAIN stack : x > j => Kind(stack[x].f) # "inv"
+CurInv == stack[InvIdx]
 
 SetTop(fr) == [stack EXCEPT ![Len(stack)] = fr]
 
@@ -392,6 +412,15 @@ Finish(r) ==
   /\ stack' = <<>>
   /\ fail' = NoFail
 
+\* the Invoke whose invoked-function frame is on top of the stack ends with result r: the call
+\* itself if it is the only frame, else a nested Invoke, whose result goes to the function that
+\* made it (NestReturn)
+EndInvoke(r) ==
+  IF Len(stack) = 1 THEN Finish(r)
+  ELSE /\ stack' = SetTop([Top EXCEPT !.ph = "done", !.res = [v |-> r.v, f |-> r.f, n |-> r.n]])
+       /\ fail' = NoFail
+       /\ UNCHANGED <<cur, ret>>
+
 Unwind ==
   /\ cur.active /\ fail # NoFail /\ stack # <<>>
   /\ IF /\ fail.from # "" /\ Kind(fail.from) = "ctor"
@@ -404,8 +433,8 @@ Unwind ==
                       ELSE <<[k |-> TopP.k, f |-> fail.from, g |-> TopP.m \in {"grp", "soft"},
                               d |-> Kind(fail.from) = "dec"]>>
           IN
-          IF Len(stack) = 1
-          THEN Finish(RetP(fail.c, fail.f, fail.n, fail.mk, fail.path \o step))
+          IF Kind(Top.f) = "inv"
+          THEN EndInvoke(RetP(fail.c, fail.f, fail.n, fail.mk, fail.path \o step))
           ELSE /\ stack' = Pop
                /\ fail' = [fail EXCEPT !.from = Top.f, !.path = @ \o step]
                /\ UNCHANGED <<cur, ret>>
@@ -429,18 +458,63 @@ DecGroupEntries(d, n, s) ==
   {[s |-> s, k |-> Rs(d)[i].ks[1], v |-> [e \in 1..(IF opt.dry THEN 0 ELSE Rs(d)[i].n) |-> Val(d, n, i, e)]] :
       i \in {x \in DOMAIN Rs(d) : Rs(d)[x].m = "grp"}}
 
+\* inv / is: the innermost Invoke in progress (its function and scope)
 ExecEvent(f, n, o) == [t |-> "exec", f |-> f, n |-> n, o |-> o, view |-> Top.view,
-                       args |-> Top.args, xs |-> StackDecs, pre |-> cur.pre, e |-> "", rt |-> 0]
+                       args |-> Top.args, xs |-> StackDecs, pre |-> CurInv.pre, e |-> "", rt |-> 0,
+                       inv |-> CurInv.f, is |-> CurInv.view]
 CbEvent(f, n, e)   == [t |-> "cb", f |-> f, n |-> n, o |-> "", view |-> Top.view,
-                       args |-> <<>>, xs |-> {}, pre |-> {}, e |-> e, rt |-> Fn(f).dur]
+                       args |-> <<>>, xs |-> {}, pre |-> {}, e |-> e, rt |-> Fn(f).dur,
+                       inv |-> "", is |-> ""]
+\* a nested Invoke of function i on scope s ended with verdict v and root cause (rf, rn)
+NestEvent(i, s, v, rf, rn) == [t |-> "nest", f |-> i, n |-> rn, o |-> v, view |-> s,
+                       args |-> <<>>, xs |-> {}, pre |-> {}, e |-> rf, rt |-> 0, inv |-> "", is |-> ""]
 
 Outcomes == IF opt.dry \/ nfault >= MaxFaults THEN {"ok"} ELSE {"ok"} \cup FaultKinds
 
-\* the function of the top frame runs (its arguments are complete)
+\* the function of the top frame is entered; its body will call Invoke before it returns
+Enter ==
+  /\ Ready /\ HasNest(Top.f)
+  /\ stack' = SetTop([Top EXCEPT !.ph = "run"])
+  /\ execs' = [execs EXCEPT ![Top.f] = @ + 1]
+  /\ UNCHANGED <<ci, opt, created, reg, decs, vals, dvals, grps, dgrps, called, dcalled,
+                 verified, okn, fail, cur, tried, ninv, nfault, log, ret>>
+
+\* the running function of the top frame makes its next Invoke call: the same checks as
+\* BeginInvoke; the resolver then works on top of the frames that are already there (so a
+\* constructor that is being built or is running counts as on the stack)
+NestBegin ==
+  /\ Running /\ Top.ni <= Len(Nest(Top.f))
+  /\ LET c  == Nest(Top.f)[Top.ni]
+         mk == Shallow(c.i, c.s)
+         skip(v, rf) == /\ stack' = SetTop([Top EXCEPT !.ni = @ + 1])
+                        /\ log' = Append(log, NestEvent(c.i, c.s, v, rf, 0))
+                        /\ UNCHANGED verified
+     IN
+     IF c.s \notin created \/ Fn(c.i).inv # "" THEN skip("invalid", "")
+     ELSE IF mk # {} THEN skip("missing", c.i)
+     ELSE IF c.s \notin verified /\ CyclicInView(c.s, RegSet) THEN skip("cycle", "")
+     ELSE /\ verified' = verified \cup {c.s}
+          /\ stack' = Append(stack, InvFrame(c.i, c.s))
+          /\ UNCHANGED log
+  /\ UNCHANGED <<ci, opt, created, reg, decs, vals, dvals, grps, dgrps, called, dcalled,
+                 execs, okn, fail, cur, tried, ninv, nfault, ret>>
+
+\* a nested Invoke has ended: its result is handed to the function that made the call
+NestReturn ==
+  /\ cur.active /\ fail = NoFail /\ Len(stack) > 1 /\ Top.ph = "done"
+  /\ LET below == stack[Len(stack) - 1] IN
+     /\ stack' = [Pop EXCEPT ![Len(stack) - 1] = [below EXCEPT !.ni = @ + 1]]
+     /\ log' = Append(log, NestEvent(Top.f, Top.view, Top.res.v, Top.res.f, Top.res.n))
+  /\ UNCHANGED <<ci, opt, created, reg, decs, vals, dvals, grps, dgrps, called, dcalled,
+                 verified, execs, okn, fail, cur, tried, ninv, nfault, ret>>
+
+\* the function of the top frame runs to its end (its arguments are complete and, if its body
+\* calls Invoke, all those calls have returned)
 Exec(o) ==
-  /\ Ready /\ o \in Outcomes
+  /\ (Ready /\ ~HasNest(Top.f)) \/ (Running /\ Top.ni > Len(Nest(Top.f)))
+  /\ o \in Outcomes
   /\ LET f == Top.f
-         n == execs[f] + 1
+         n == IF Top.ph = "run" THEN execs[f] ELSE execs[f] + 1
          k == Kind(f)
          evs == (IF opt.dry THEN <<>> ELSE <<ExecEvent(f, n, o)>>)
                 \o (IF Fn(f).cb /\ k # "inv"
@@ -467,17 +541,17 @@ Exec(o) ==
                /\ UNCHANGED <<vals, grps, called, fail, cur, ret>>
           [] o = "ok" /\ k = "inv" ->
                /\ okn' = [okn EXCEPT ![f] = n]
-               /\ Finish(Ret("ok", "", 0, {}))
+               /\ EndInvoke(Ret("ok", "", 0, {}))
                /\ UNCHANGED <<vals, dvals, grps, dgrps, called, dcalled>>
           [] o = "err" /\ k = "inv" ->
-               /\ Finish(Ret("invokeerr", f, n, {}))
+               /\ EndInvoke(Ret("invokeerr", f, n, {}))
                /\ UNCHANGED <<vals, dvals, grps, dgrps, called, dcalled, okn>>
           [] o = "err" /\ k # "inv" ->
                /\ fail' = Failure("fail", f, n, FALSE, f, {})
                /\ stack' = Pop
                /\ UNCHANGED <<vals, dvals, grps, dgrps, called, dcalled, okn, cur, ret>>
           [] o = "panic" /\ opt.recover /\ k = "inv" ->
-               /\ Finish(Ret("panic", f, n, {}))
+               /\ EndInvoke(Ret("panic", f, n, {}))
                /\ UNCHANGED <<vals, dvals, grps, dgrps, called, dcalled, okn>>
           [] o = "panic" /\ opt.recover /\ k # "inv" ->
                /\ fail' = Failure("panic", f, n, FALSE, f, {})
@@ -489,7 +563,7 @@ Exec(o) ==
                /\ UNCHANGED <<vals, dvals, grps, dgrps, called, dcalled, okn>>
   /\ UNCHANGED <<ci, opt, created, reg, decs, verified, tried, ninv>>
 
-Step == Descend \/ Unwind \/ \E o \in {"ok", "err", "panic"} : Exec(o)
+Step == Descend \/ Unwind \/ Enter \/ NestBegin \/ NestReturn \/ \E o \in {"ok", "err", "panic"} : Exec(o)
 
 ApiNext ==
   \/ \E s \in Scopes : CreateScope(s)
@@ -564,7 +638,8 @@ C08_Visible ==
 
 \* C08: a constructor is always built as seen from the scope it was given to
 C08_OwnView == \A j \in DOMAIN stack :
-  stack[j].view = IF Kind(stack[j].f) = "inv" THEN cur.s ELSE View(stack[j].f)
+  IF Kind(stack[j].f) = "inv" THEN (j = 1 => stack[j].view = cur.s)
+  ELSE stack[j].view = View(stack[j].f)
 
 \* C08: results are cached in the home scope of their constructor, decorated values in the
 \* scope of their decorator
@@ -663,7 +738,8 @@ ClosureFrom(W, s) ==
   IN  IF N = W THEN W ELSE ClosureFrom(N, s)
 Closure(i, s) == ClosureFrom({i}, s)
 
-C03_OnlyClosure == HaveExec => LastExec.f \in Closure(cur.f, cur.s)
+\* (the Invoke meant is the innermost one in progress when the function ran)
+C03_OnlyClosure == HaveExec => LastExec.f \in Closure(LastExec.inv, LastExec.is)
 \* C03: when a function runs, everything it received was produced earlier (deps first)
 C03_DepsFirst == HaveExec => \A j \in DOMAIN LastExec.args : \A x \in DOMAIN LastExec.args[j] :
      LET a == LastExec.args[j][x] IN a # Zero => okn[a.f] = a.n /\ a.f # LastExec.f
